@@ -7,13 +7,15 @@ from .. import tweezer as T
 ID = "C15"
 MODULES = ["Shuttle.Props.C15"]
 RULE = ("seeded histories of 2-12 run_trace calls on ONE TraceInterpreter instance, mixing kernels, argument tuples, "
-        "successful traces and the failure kinds (use before set_loc, shape change, failing assert/grid operation); "
+        "successful traces and the failure kinds (use before set_loc, shape change, failing assert/grid operation, a call that "
+        "fails while binding its arguments), the same call repeated directly and after failing calls, one history of several "
+        "hundred calls; "
         "each result is compared with a fresh instance's and with the model's history; every returned path is "
         "deep-copied at return time and re-compared with the live object after every later call. "
         "non-trivial = history containing a failing call followed by a successful one; distinct = distinct histories.")
 TRUSTED = ["modelled, not verified: kirin interpreter loop (run() calling initialize()), bloqade-geometry Grid"]
-ASSUMPTIONS = ["aliasing between results of different calls is observed through deep copies, not modelled in Lean "
-               "(the theorem covers the value-level half of the property)"]
+ASSUMPTIONS = ["calls that fail while binding their arguments are exercised on the implementation only (the Lean models start at "
+               "the kernel's first statement)"]
 
 
 def run(ctx):
@@ -49,6 +51,25 @@ def run(ctx):
         shown = []
         case = {"history": [c.as_case() for c in calls]}
         for c in calls:
+            if ctx.rng.random() < 0.08 and len(c.rargs) >= 1:
+                # a call that fails before the kernel runs: an argument is missing (it is neither a success nor one of the
+                # kernel-level failures; the instance must be as good as new afterwards)
+                ctx.count("calls_with_missing_argument")
+                try:
+                    it.run_trace(c.mt, (), {"no_such_parameter": 1})
+                except Exception:  # noqa: BLE001
+                    pass
+            if ctx.rng.random() < 0.15:
+                # the SAME kernel first with arguments on which it fails (a grid of another shape), then with the good ones
+                from bloqade.geometry.dialects.grid import Grid
+                bad = tuple(Grid.from_positions([0.0, 1.0, 2.0, 3.0, 4.0], [0.0, 1.0, 2.0, 3.0, 4.0]) if isinstance(a, Grid) else a
+                            for a in c.rargs)
+                ctx.count("same_kernel_with_other_arguments_first")
+                try:
+                    it.run_trace(c.mt, bad, {})
+                    ctx.count("same_kernel_other_arguments_succeeded")
+                except Exception:  # noqa: BLE001
+                    ctx.count("same_kernel_other_arguments_failed")
             try:
                 p = it.run_trace(c.mt, c.rargs, {})
                 live = p
